@@ -15,8 +15,10 @@ Full statement / proved / missing
 * `C01_full` (a `def … : Prop`, kept visible): for every matcher, every length-preserving `lower`, all well-formed A, B with B
   `UnitSafe` (Unit only as element type of zero-size collections, the shape inferred for empty arrays/hashes), all values:
   `asg false A B → inst B v → inst A v`.
-* `C01_sound_partial` — PROVED, unbounded (strong induction on the summed weight, one lemma per receiver rule): `C01_full`
-  restricted to the fragment `Ty.Frag` = hereditarily no `Iterable[..]` — i.e. for Any, Undef, Default, Scalar, ScalarData, Numeric,
+* `C01_sound_partial` — PROVED, unbounded (strong induction on the summed weight, one lemma per receiver rule), for BOTH settings of the
+  exempt rule: with the rule off it is `C01_full` restricted to the fragment `Ty.Frag false` = hereditarily no `Iterable[..]`; with the
+  rule ON — the code as it is, `C01_sound_rule_on` — the fragment `Ty.Frag true` additionally has no `Struct` (the stated exclusion:
+  only a Struct can use the rule).  The fragment covers Any, Undef, Default, Scalar, ScalarData, Numeric,
   Integer, Float, Boolean, Timespan, String (all three forms), Enum, Pattern, Regexp, Binary, Collection, Array, Hash, Tuple, Struct,
   Variant, Optional, NotUndef, Sensitive, Object, the built-in recursive aliases Data and RichData (as receivers and on the right-hand
   side, through the specialised `asgToArr` / `asgToHash` members), arbitrarily nested, and `Type[T]` for `T` in
@@ -28,8 +30,9 @@ Full statement / proved / missing
     question about an INFERRED type and is genuinely unsound in the code: witnesses
     `C01_full_fails_iterable_elem` (inferred element type wider than any Variant member; known finding C01-iterable-inferred-elem)
     and `C01_full_fails_iterable_binary` (Iterable accepts Binary, whose values are not Iterable instances; C01-iterable-binary).
-  - the exempt rule: `C01_sfh_witness` shows it is genuinely unsound when switched on (this is the stated exclusion, not a finding);
-    the statement "sfh matters only where a Struct receives a Hash" is validated by the harness class `unsound-sfh`, not proved.
+  - the exempt rule: `C01_sfh_witness` shows it is genuinely unsound when switched on (this is the stated exclusion, not a finding).
+    With the rule on the theorem excludes every pair that contains a Struct anywhere; the finer statement "only where a Struct
+    receives a Hash" is validated by the harness class `unsound-sfh`, not proved.
   - second-tier types (Callable, Runtime, Iterator, Like, Init, TypeReference, Timestamp, SemVer, URI) and user recursive aliases:
     not in the model; harness-side tests only.
 -/
@@ -44,10 +47,16 @@ def C01_full : Prop :=
     asg cfg false a b = true → inst cfg false b v = true → inst cfg false a v = true
 
 /-- proved part: the same statement on the fragment `Ty.Frag` -/
-theorem C01_sound_partial (cfg : Cfg) (hl : LowerLen cfg) (a b : Ty) (v : Val)
-    (fa : a.Frag) (fb : b.Frag) (wa : Ty.WF cfg a) (wb : Ty.WF cfg b) (us : b.US) (ok : v.OK) (tv : Val.TyOK cfg v)
-    (h : asg cfg false a b = true) (hi : inst cfg false b v = true) : inst cfg false a v = true :=
-  sound_all cfg hl (a.w + b.w) a b v (Nat.le_refl _) ⟨fa, fb, wa, wb, us, ok, tv⟩ h hi
+theorem C01_sound_partial (cfg : Cfg) (sfh : Bool) (hl : LowerLen cfg) (a b : Ty) (v : Val)
+    (fa : a.Frag sfh) (fb : b.Frag sfh) (wa : Ty.WF cfg a) (wb : Ty.WF cfg b) (us : b.US) (ok : v.OK) (tv : Val.TyOK cfg v)
+    (h : asg cfg sfh a b = true) (hi : inst cfg sfh b v = true) : inst cfg sfh a v = true :=
+  sound_all cfg sfh hl (a.w + b.w) a b v (Nat.le_refl _) ⟨fa, fb, wa, wb, us, ok, tv⟩ h hi
+
+/-- the code as it is (rule ON), for every pair without a Struct: instance of the theorem at `sfh = true` -/
+theorem C01_sound_rule_on (cfg : Cfg) (hl : LowerLen cfg) (a b : Ty) (v : Val)
+    (fa : a.Frag true) (fb : b.Frag true) (wa : Ty.WF cfg a) (wb : Ty.WF cfg b) (us : b.US) (ok : v.OK) (tv : Val.TyOK cfg v)
+    (h : asg cfg true a b = true) (hi : inst cfg true b v = true) : inst cfg true a v = true :=
+  C01_sound_partial cfg true hl a b v fa fb wa wb us ok tv h hi
 
 /-- the test "accepts Undef" used by the NotUndef and Struct rules is complete -/
 theorem C01_undef_complete (cfg : Cfg) (sfh : Bool) (b : Ty) (h : inst cfg sfh b .undef = true) :
@@ -59,7 +68,7 @@ def exA : Ty := .array (.variant [.int ⟨0, 9⟩, .optional .str, .typ .scalar]
 def exB : Ty := .tuple [.int ⟨1, 2⟩, .strVal "a", .typ .numeric] none
 def exV : Val := .array [.int 2, .str "a", .typ (.int ⟨0, 5⟩)]
 
-example (cfg : Cfg) : exA.Frag ∧ exB.Frag ∧ Ty.WF cfg exA ∧ Ty.WF cfg exB ∧ exB.US := by
+example (cfg : Cfg) : exA.Frag true ∧ exB.Frag true ∧ Ty.WF cfg exA ∧ Ty.WF cfg exB ∧ exB.US := by
   refine ⟨?_, ?_, ?_, ?_, ?_⟩ <;> simp [exA, exB, Ty.Frag, Ty.TF, Ty.WF, Ty.US]
 example : exV.OK := Val.OK.array _ (by intro x hx; simp at hx; rcases hx with rfl | rfl | rfl <;> constructor)
 example (cfg : Cfg) : Val.TyOK cfg exV := by
@@ -70,9 +79,9 @@ example (cfg : Cfg) : Val.TyOK cfg exV := by
     · constructor
     · constructor
     · exact Val.TyOK.typ _ (by simp [Ty.TF]) (by simp [Ty.WF]))
-example (cfg : Cfg) : asg cfg false exA exB = true := by
+example (cfg : Cfg) : asg cfg true exA exB = true := by
   simp [exA, exB, asg, asgRecv, asgAllR, asgAnyL, sameNullary, Rng.sub, tupleSize, Rng.exact, isStringFamily]
-example (cfg : Cfg) : inst cfg false exB exV = true := by
+example (cfg : Cfg) : inst cfg true exB exV = true := by
   simp [exB, exV, inst, instZip, tupleSize, Rng.exact, Rng.contains, asg, asgRecv, sameNullary]
 
 /-- non-vacuity with the recursive alias: `Data ⊒ Hash[String, Array[Integer]]` and a conforming value -/
